@@ -421,8 +421,8 @@ StepOK(names) ==
 
 AllMonitors == {MonitorNames[i] : i \in DOMAIN MonitorNames}
 
-\* strict: the transcribed code satisfies every monitor at every call (expected to FAIL for the
-\* trimmed kinds and memdb: F7, F15)
+\* strict: the transcribed code satisfies every monitor at every call (holds for "bolt"; FAILS for
+\* the trimmed kinds and memdb: F7, F15 - Sim_StoreBackend!Act_Classify prints one path per class)
 Act_Strict == [][StepOK(AllMonitors)]_vars
 \* modulo the named deviations the transcribed code is the sorted map (must hold, complete graph)
 Act_ModuloNamed == [][NamedDeviation(b, op'.shape) \/ StepOK(AllMonitors)]_vars
